@@ -139,6 +139,26 @@ func TestC07BlockCuts(t *testing.T) {
 					rt.Fatalf("inferred decode of the first %d of %d bytes returned %v; block %v", k, len(data), err, typeNames(cols))
 				}
 			}
+			if rows == 0 {
+				// A header block may also be read without any target (empty Results, or nil).
+				for _, tgt := range []proto.Result{&proto.Results{}, nil} {
+					var b proto.Block
+					r := readerOf(data[:k])
+					if err := safely(func() error { return b.DecodeBlock(r, rev, tgt) }); err == nil || isPanic(err) {
+						rt.Fatalf("decode without targets (%T) of the first %d of %d bytes of a zero-row block returned %v; block %v rev %d", tgt, k, len(data), err, typeNames(cols), rev)
+					}
+				}
+			}
+		}
+		if rows == 0 {
+			for _, tgt := range []proto.Result{&proto.Results{}, nil} {
+				var b proto.Block
+				r := readerOf(data)
+				if err := safely(func() error { return b.DecodeBlock(r, rev, tgt) }); err != nil || !atEOF(r) {
+					rt.Fatalf("harness: zero-row block does not decode exactly without targets (%T): %v", tgt, err)
+				}
+			}
+			st.Label("zero-row-block-without-targets")
 		}
 		// Compressed: one frame, and the block split over 2-3 frames.
 		method := rapid.SampledFrom([]byte{ref.MethodNone, ref.MethodLZ4, ref.MethodZSTD}).Draw(rt, "method")
